@@ -549,6 +549,7 @@ func runC20(cases string, res *Result) {
 		res.Evaluations++
 		return eng.Render(id, map[string]interface{}{"x": x})
 	}
+	c20HeldResults(res)
 	var knownFinding *Finding
 	pairsSeen := map[string]bool{}
 
@@ -708,5 +709,68 @@ func runC20(cases string, res *Result) {
 		res.Notes = append(res.Notes, "no cache hook: the size accounting of attributeCache (currSize = number of entries <= maxSize) is covered by the translator shape check and C20_cache_bounded only")
 	} else {
 		res.Notes = append(res.Notes, "cache reset before every case and entries = currSize <= maxSize observed after every case through hooks/verif_hooks_attr.go; entry count compared with the model on histories without eviction")
+	}
+}
+
+// ---------------------------------------------------------------- results that are kept
+
+type C20Cust struct {
+	Name string
+	N    int
+}
+type C20Order struct {
+	customer C20Cust
+	Tags     []string
+	Total    int
+}
+
+func (o *C20Order) Customer() *C20Cust { return &o.customer }
+func (o *C20Order) TagList() []string  { return o.Tags }
+func (o *C20Order) Self() *C20Order    { return o }
+func (o C20Order) Copy() *C20Cust      { c := o.customer; return &c }
+
+// c20HeldResults: the value a method yields is that method's value for that object -- also when the template keeps
+// it (set, a list, a loop variable) while the same attribute is looked up on other objects of the same type. The
+// objects are struct values and pointers; the methods have pointer receivers and return something that refers to
+// their receiver.
+func c20HeldResults(res *Result) {
+	mk := func() map[string]interface{} {
+		a := C20Order{customer: C20Cust{"alice", 100}, Tags: []string{"a1", "a2"}, Total: 1}
+		b := C20Order{customer: C20Cust{"bob", 200}, Tags: []string{"b1"}, Total: 2}
+		c := C20Order{customer: C20Cust{"carol", 300}, Tags: []string{"c1", "c2", "c3"}, Total: 3}
+		return map[string]interface{}{"first": a, "second": b, "pfirst": &a, "psecond": &b, "orders": []C20Order{a, b, c}, "porders": []*C20Order{&a, &b, &c},
+			"iorders": []interface{}{a, &b, c}}
+	}
+	tpls := [][2]string{
+		{"{% set a = first.Customer %}{% set b = second.Customer %}{{ a.Name }}/{{ b.Name }}|{{ a.N }}/{{ b.N }}", "alice/bob|100/200"},
+		{"{% set a = pfirst.Customer %}{% set b = psecond.Customer %}{{ a.Name }}/{{ b.Name }}|{{ first.Customer.N }}", "alice/bob|100"},
+		{"{% set a = first.Customer %}{% set b = psecond.Customer %}{% set c = second.Customer %}{{ a.Name }}{{ b.Name }}{{ c.Name }}{{ a.N + c.N }}", "alicebobbob300"},
+		{"{% set held = [] %}{% for o in orders %}{% set held = held|merge([o.Customer]) %}{% endfor %}{% for c in held %}{{ c.Name }}{{ c.N }},{% endfor %}", "alice100,bob200,carol300,"},
+		{"{% set held = [] %}{% for o in iorders %}{% set held = held|merge([o.Customer]) %}{% endfor %}{% for c in held %}{{ c.Name }},{% endfor %}", "alice,bob,carol,"},
+		{"{% set t = first.TagList %}{% set u = second.TagList %}{{ t|join('+') }}|{{ u|join('+') }}|{{ t|length }}", "a1+a2|b1|2"},
+		{"{% set s = first.Self %}{% set r = second.Self %}{{ s.Total }}{{ r.Total }}{{ s.Customer.Name }}{{ r.Customer.Name }}", "12alicebob"},
+		{"{% set a = first.Copy %}{% set b = second.Copy %}{{ a.Name }}{{ b.Name }}", "alicebob"},
+		{"{% for o in porders %}{% set k = o.Customer %}{% for q in orders %}{{ q.Customer.Name|first }}{% endfor %}{{ k.Name }};{% endfor %}", "abcalice;abcbob;abccarol;"},
+		{"{{ first.Customer.Name }}{{ second.Customer.Name }}{{ first.Customer.Name }}", "alicebobalice"},
+	}
+	eng := twig.New()
+	for i, tp := range tpls {
+		name := fmt.Sprintf("held%d", i)
+		if err := eng.RegisterString(name, tp[0]); err != nil {
+			panic("c20 held results: template does not parse: " + tp[0] + ": " + err.Error())
+		}
+		for round := 0; round < 20; round++ {
+			res.Evaluations++
+			res.Hist["stream:held-results"]++
+			got, err := eng.Render(name, mk())
+			if err != nil {
+				got = "error: " + err.Error()
+			}
+			if got != tp[1] {
+				res.add(Finding{Kind: "oracle", Where: "held-results", Case: Case{"stream": "held-results", "tpl": tp[0], "round": round}, Expected: tp[1], Observed: got,
+					Detail: "the value a pointer-receiver method yielded for one object changed (or was wrong) once the same attribute had been looked up on another object"})
+				break
+			}
+		}
 	}
 }
